@@ -63,6 +63,96 @@ const ALLOWED_AMBIENT: [(&str, &str, &str); 1] = [(
     "locating rustfmt through CARGO_HOME/CARGO: the property itself sets rustfmt's availability aside (formatting is applied to finished text)",
 )];
 
+/// C11.comments: the comments in front of an assignment are part of its output (doc comments). A type or value parser that
+/// ends in `skip_ws_and_comments(<something that may match nothing>)` consumes the trivia *behind* the assignment even when
+/// nothing follows — i.e. the comments of whichever assignment comes next — so the generated text depends on the order of
+/// the assignments. Every parser in tail position of a top-level assignment is checked: its last element must not be a
+/// trivia-skipping wrapper around a nullable parser (`opt`, `many0`, `success`); the wrapper belongs inside the `opt`.
+fn trailing_trivia(m: &Model, ctx: &mut Ctx) {
+    use std::collections::BTreeSet;
+    let lexer: Vec<&crate::model::FnInfo> = m.fns.iter().filter(|f| f.krate == "rasn-compiler" && f.module.starts_with("lexer") && !f.module.contains("tests")).collect();
+    let by_name = |n: &str| lexer.iter().find(|f| f.name == n).cloned();
+    // tail expressions of a parser expression (through the sequencing and mapping combinators)
+    fn tails<'e>(e: &'e syn::Expr, out: &mut Vec<&'e syn::Expr>) {
+        use syn::Expr;
+        match e {
+            Expr::Paren(p) => tails(&p.expr, out),
+            Expr::MethodCall(mc) if ["parse", "map", "map_res", "and_then", "into"].contains(&mc.method.to_string().as_str()) => tails(&mc.receiver, out),
+            Expr::Tuple(t) => { if let Some(l) = t.elems.last() { tails(l, out) } }
+            Expr::Call(c) => {
+                let name = model::callee_name(c).unwrap_or_default();
+                let args: Vec<&syn::Expr> = c.args.iter().collect();
+                match (name.as_str(), args.len()) {
+                    ("map" | "map_res" | "into" | "map_into" | "cut" | "context_boundary" | "recognize" | "into_inner", n) if n >= 1 => tails(args[0], out),
+                    ("value", 2) => tails(args[1], out),
+                    ("preceded" | "terminated" | "pair" | "separated_pair", n) if n >= 2 => tails(args[n - 1], out),
+                    ("delimited", 3) => tails(args[2], out),
+                    ("alt", _) => match args.first() { Some(Expr::Tuple(t)) => for a in t.elems.iter() { tails(a, out) }, _ => {} },
+                    _ => out.push(e),
+                }
+            }
+            _ => out.push(e),
+        }
+    }
+    let roots = ["top_level_type_declaration", "top_level_value_declaration", "top_level_information_declaration", "top_level_information_object_declaration", "top_level_object_set_declaration", "top_level_class_declaration"];
+    let mut seen: BTreeSet<String> = BTreeSet::new();
+    let mut work: Vec<String> = roots.iter().map(|s| s.to_string()).collect();
+    let mut checked = 0;
+    while let Some(n) = work.pop() {
+        if !seen.insert(n.clone()) {
+            continue;
+        }
+        let Some(f) = by_name(&n) else { continue };
+        let Some(syn::Stmt::Expr(tail, None)) = f.block.stmts.last() else { continue };
+        checked += 1;
+        ctx.oblige("C11.comments", &n, false);
+        // (violations, named parsers in tail position)
+        fn visit(e: &syn::Expr, viol: &mut Vec<(String, String, usize)>, next: &mut Vec<String>, depth: usize) {
+            if depth > 12 {
+                return;
+            }
+            let mut ts = vec![];
+            tails(e, &mut ts);
+            for t in ts {
+                match t {
+                    syn::Expr::Path(p) => {
+                        if let Some(id) = p.path.segments.last() {
+                            next.push(id.ident.to_string());
+                        }
+                    }
+                    syn::Expr::Call(c) => {
+                        let name = model::callee_name(c).unwrap_or_default();
+                        let args: Vec<&syn::Expr> = c.args.iter().collect();
+                        if (name == "skip_ws_and_comments" || name == "skip_ws") && args.len() == 1 {
+                            let inner = args[0];
+                            let inner_name = match inner { syn::Expr::Call(ic) => model::callee_name(ic).unwrap_or_default(), syn::Expr::Path(p) => p.path.segments.last().map(|s| s.ident.to_string()).unwrap_or_default(), _ => String::new() };
+                            if ["opt", "many0", "success", "many0_count", "fold_many0"].contains(&inner_name.as_str()) {
+                                viol.push((name.clone(), inner_name, model::line_of(syn::spanned::Spanned::span(c))));
+                            } else {
+                                visit(inner, viol, next, depth + 1);
+                            }
+                        } else if ["opt", "many0", "many1", "cut"].contains(&name.as_str()) {
+                            if let Some(a) = args.first() {
+                                visit(a, viol, next, depth + 1);
+                            }
+                        }
+                    }
+                    _ => {}
+                }
+            }
+        }
+        let mut viol = vec![];
+        let mut next = vec![];
+        visit(tail, &mut viol, &mut next, 0);
+        work.extend(next);
+        for (name, inner_name, line) in viol {
+            ctx.violate("C11.comments", &format!("trailing-trivia-consumed:{}", n), &f.file, line,
+                &format!("`{}` ends in `{}({}(..))`: the white space and comments behind the construct are consumed even when nothing follows, so the comments that document the next assignment are lost — the output depends on which assignment comes next (write `opt({}(..))`)", n, name, inner_name, name));
+        }
+    }
+    ctx.floor("C11.comments/tail-parsers", checked, 40);
+}
+
 pub fn run(m: &Model, ctx: &mut Ctx, facts: &Facts) {
     ctx.explanation = "Effect analysis over the MIR of every body reachable from the compile entry points (same roots and call graph as C08): \
 (1) C11.hash: no call that iterates a std hashed container (HashMap/HashSet iter/keys/values/drain/retain/IntoIterator/set algebra) — the only source of run-to-run order variation inside std; \
@@ -299,4 +389,5 @@ Together these are necessary conditions for byte-identical output under repetiti
     } else {
         ctx.fail_closed("C11.order", "anchor not found: Validator::validate");
     }
+    trailing_trivia(m, ctx);
 }
